@@ -28,19 +28,22 @@ var fastPairs = [][2]string{{"NONE", "NONE"}, {"NONE", "HUFFMAN"}, {"LZ", "NONE"
 	{"TEXT+UTF", "NONE"}, {"BWTS", "NONE"}, {"NONE", "CM"}, {"FSD", "NONE"}, {"MM", "NONE"}, {"DNA", "NONE"}, {"ALIAS", "ANS0"}}
 
 type readerRun struct {
-	Run     int     `json:"run"`
-	Mode    string  `json:"mode"` // clean | damaged | truncated | nock
-	Shape   string  `json:"shape"`
-	Size    int     `json:"size"`
-	W       kz.Cfg  `json:"w"`
-	R       kz.RCfg `json:"r"`
-	Chunks  []int   `json:"chunks,omitempty"`
-	Lens    []int   `json:"lens,omitempty"`
-	Perturb int     `json:"perturb"`
-	Mut     string  `json:"mut,omitempty"`
-	Seed    int64   `json:"seed"`
-	After   int     `json:"after"`   // extra Read calls after the first error / EOF
-	CloseAt int     `json:"closeAt"` // call index at which Close is issued (-1 never before the end)
+	Run            int     `json:"run"`
+	Mode           string  `json:"mode"` // clean | damaged | truncated | nock
+	Shape          string  `json:"shape"`
+	Size           int     `json:"size"`
+	W              kz.Cfg  `json:"w"`
+	R              kz.RCfg `json:"r"`
+	Chunks         []int   `json:"chunks,omitempty"`
+	Lens           []int   `json:"lens,omitempty"`
+	Perturb        int     `json:"perturb"`
+	Mut            string  `json:"mut,omitempty"`
+	Seed           int64   `json:"seed"`
+	After          int     `json:"after"`             // extra Read calls after the first error / EOF
+	CloseAt        int     `json:"closeAt"`           // call index at which Close is issued (-1 never before the end)
+	SrcFail        []int   `json:"srcFail,omitempty"` // source Read calls (1-based) that fail
+	SrcFailAtEnd   bool    `json:"srcFailAtEnd,omitempty"`
+	SrcErrWithData bool    `json:"srcErrWithData,omitempty"`
 }
 
 // expectedSlice returns the bytes a correct reader delivers for the block range of the run.
@@ -93,7 +96,11 @@ func execReaderRun(run *readerRun, stream []byte, expected []byte, inject func(p
 	rec.Perturb = run.Perturb
 	rec.Digest = map[int]bool{}
 	rec.Inject = inject
-	src := &fio.Source{Data: stream, Chunks: run.Chunks}
+	src := &fio.Source{Data: stream, Chunks: run.Chunks, Fail: map[int]bool{}, FailAtEnd: run.SrcFailAtEnd, ErrWithData: run.SrcErrWithData}
+	for _, k := range run.SrcFail {
+		src.Fail[k] = true
+	}
+	srcSeen := 0
 	ctx := run.R.Ctx()
 	ctx["verifHook"] = rec.Func()
 	r, err := kio.NewReaderWithCtx(src, ctx)
@@ -101,7 +108,14 @@ func execReaderRun(run *readerRun, stream []byte, expected []byte, inject func(p
 		evs = append(evs, tr.Ev{"ev": "Note", "what": "reader construction failed: " + err.Error()})
 		return evs
 	}
+	lastGetRead := uint64(0)
+	_ = lastGetRead
 	flush := func() {
+		for ; srcSeen < len(src.Calls); srcSeen++ {
+			if c := src.Calls[srcSeen]; c.Inj {
+				evs = append(evs, tr.Ev{"ev": "SRC_FAIL", "k": c.K, "got": c.Got, "complete": c.Pos >= len(src.Data)})
+			}
+		}
 		for _, e := range rec.Events() {
 			if te := decodeHookEvent(e); te != nil {
 				evs = append(evs, te)
@@ -142,6 +156,9 @@ func execReaderRun(run *readerRun, stream []byte, expected []byte, inject func(p
 			got = tr.Dig(buf[:m])
 		}
 		evs = append(evs, tr.Ev{"ev": "Read", "n": m, "len": n, "got": got, "want": want, "err": kz.Class(err), "off": delivered})
+		if call%3 == 0 {
+			evs = append(evs, tr.Ev{"ev": "GetRead", "v": int(r.GetRead()), "srcPos": src.Pos})
+		}
 		if m > 0 {
 			delivered += m
 		}
@@ -442,6 +459,35 @@ func planReaderRun(mode string, k int, seed int64, thorough bool) (*readerRun, [
 		}
 		run.Mut = fmt.Sprintf("cut@%d/%d", cut, len(stream))
 		stream = stream[:cut]
+	case "c08r":
+		run.Mode = "srcfault"
+		run.After = 4
+		// number of source calls of the fault-free run
+		probe := &fio.Source{Data: stream, Chunks: run.Chunks}
+		if pr, e := kio.NewReaderWithCtx(probe, kz.RCfg{Jobs: run.R.Jobs}.Ctx()); e == nil {
+			kz.ReadAll(pr, nil, size+1<<20)
+			pr.Close()
+		}
+		ncalls := len(probe.Calls)
+		switch rnd.Intn(4) {
+		case 0:
+			run.SrcFailAtEnd = true
+		case 1:
+			run.SrcFailAtEnd = true
+			run.SrcErrWithData = true
+		default:
+			run.SrcFail = []int{1 + rnd.Intn(ncalls+1)}
+			if rnd.Intn(3) == 0 {
+				run.SrcFail = append(run.SrcFail, 1+rnd.Intn(ncalls+1))
+			}
+		}
+		if rnd.Intn(2) == 0 && len(run.Chunks) == 0 {
+			run.Chunks = []int{pick(rnd, []int{1000, 4096, 65536, 100000})}
+		}
+	case "c17r":
+		run.CloseAt = rnd.Intn(6)
+		run.After = 3
+		run.Lens = pick(rnd, [][]int{{0, 1, 700}, {1024}, {1, 0}, {5000}, {100000}})
 	case "c06":
 		run.Chunks = pick(rnd, [][]int{{1}, {7}, {8}, {13, 5, 64}, {3, 1 << 20}, {-1}, {1, 2, 3, 4, 5, 6, 7}, {9}, {1000}, {4095, 1}})
 		if run.Chunks[0] == -1 {
